@@ -22,7 +22,10 @@ def trait_def(t):
     for m in t.methods:
         for a in m.attrs:
             out.append(f"    {a}")
-        out.append(f"    {m.sig()};")
+        if m.default_body:
+            out.append(f"    {m.sig()} {m.default_expr()}")
+        else:
+            out.append(f"    {m.sig()};")
     out.append("}")
     return "\n".join(out)
 
@@ -32,6 +35,8 @@ def impl_def(t, ty="Imp"):
     for (name, attr, bound) in t.assocs():
         out.append(f"    type {name} = LeafImp;")
     for m in t.methods:
+        if m.default_body and not m.overridden:
+            continue  # the implementor relies on the provided body
         this = {"ref": "let this = self;", "mut": "let this = self;", "own": "let mut this = self;",
                 "pinref": "let this = self.get_ref();", "pinmut": "let this = self.get_mut();"}[m.recv]
         digest = " ".join(a.impl_digest() for a in m.args)
@@ -88,7 +93,8 @@ def arm(t, m):
     # 1. routing / state / log
     L.append("                check_step(sw, sr, wid, mname)?;")
     # 2. addresses of reference-like arguments as seen by the wrapped implementor
-    exp = [e for a in m.args for e in a.expect_ptrs()]
+    runs_impl = not (m.default_body and not m.overridden)  # otherwise the trait's provided body runs on both sides
+    exp = [e for a in m.args for e in a.expect_ptrs()] if runs_impl else []
     if exp:
         L.append(f"                {{ let seen = sw.take_ptrs(); let want: Vec<(usize, usize)> = vec![{', '.join(exp)}]; if seen != want {{ return Err(Fail::new(\"C02:arg-address\", format!(\"method {{}}: reference-like arguments arrived as (address,len) {{:x?}}, the caller passed {{:x?}}\", mname, seen, want))); }} }}")
     # 3. returns
@@ -96,7 +102,7 @@ def arm(t, m):
     L.append("                " + m.ret.compare())
     # 4. caller-visible effects on arguments
     for a in m.args:
-        if a.after():
+        if a.after() and runs_impl:
             L.append("                " + a.after())
     L.append("                if nondefault { fl.wrapped_nondefault = true; }")
     if m.ret.transfers():
